@@ -1516,10 +1516,19 @@ def trace_judge(ctx, rec):
                              "tunnel data, same of passed: nothing passed",
                              "datagram from outside, same of passed: nothing passed",
                              "tunnel data, same of refused: passed")
-                 if not kinstat.get(k)]
-        if need or rec["marks"].get("kin_vacuous"):
-            raise MachineryError("trace binding is vacuous for the history part: never observed %s" % need)
+                 # (a filter that is stricter than the specification - reported as a divergence above - may let
+                 # nothing pass where the specification would)
+                 if not kinstat.get(k) and (ok_e or not k.endswith(": passed"))]
+        no_kin_marks = bool(rec["marks"].get("kin_vacuous"))
+        if need or (no_kin_marks and ok_e):
+            raise MachineryError("trace binding is vacuous for the history part: never observed %s%s"
+                                 % (need, " / a refused packet sharing head and length with one that passed"
+                                    if no_kin_marks else ""))
         for i, (name, _) in enumerate(rec["controls"]):
+            if no_kin_marks and i < 2:
+                # (a stricter filter, reported as a divergence: the situation these two controls corrupt never arose)
+                ctx.note("controls_not_applicable", [n for n, _ in rec["controls"][:2]])
+                continue
             ctx.control(name, (i + 1) in rej_o and (i + 1) in rej_e)
     return n_emit, n_tun, n_opened
 
